@@ -128,7 +128,9 @@ m = {
         {"name": "zoo", "path": "vrt/src/zoo.rs + gen/zoo.py", "serves_properties": ["C01", "C02", "C17", "C19"],
          "kind_free_text": "twin functions (macro vs plain method chain with identical operand text) compiled against /repo and compared at run time"},
         {"name": "lab", "path": "lab/ + gen/dsl.py", "serves_properties": ["C10", "C13", "C14", "C15", "C16", "C20"],
-         "kind_free_text": "site E1 harness linking join_impl as a library (round trip, totality, determinism, marker counting, option orders) plus rustc reject / futures_crate_path corpora"},
+         "kind_free_text": "site E1 harness linking join_impl as a library (round trip, totality, determinism, marker counting, option orders) plus rustc reject / futures_crate_path / renamed-dependency corpora"},
+        {"name": "fuzz", "path": "fuzz/ + check (fuzz_c15)", "serves_properties": ["C15"],
+         "kind_free_text": "libFuzzer target (cargo-fuzz, nightly) linking join_impl and the lab oracle: byte strings decoded into DSL token streams, expanded under every Config; phase 1 without sanitizer, phase 2 replays the corpus under AddressSanitizer; thorough tier of C15 only"},
     ],
     "checks": checks,
     "not_applicable": na,
